@@ -388,7 +388,7 @@ Qed.
 
 Lemma wdhms_ok_search s d o : m_wdhms s = DurOk d o -> exists a n caps, m_search true true s = Some (a, n, caps).
 Proof.
-  unfold m_wdhms, wdhms. destruct s as [|x t]; [discriminate|].
+  unfold m_wdhms, wdhms, wdhms_gen. destruct s as [|x t]; [discriminate|].
   change dur_anchor_start with true. change dur_anchor_end with true. fold (m_search true true).
   destruct (m_search true true (x :: t)) as [[[a n] caps]|]; [|discriminate]. eauto.
 Qed.
